@@ -221,7 +221,13 @@ def _ops_serial():
         y = list(m.dependent_variables.keys())[0]
         return m.replace(observation_transformation={y: y.log()})
 
-    return {"obs_log": obs_log, "dtbs": pm.set_dtbs_error_model}
+    return {"obs_log": obs_log, "dtbs": pm.set_dtbs_error_model,
+            # execution step attributes that no transformation of the other alphabets sets
+            "solver_tol": lambda m: pm.set_estimation_step(m, "FOCE", idx=0, solver="LSODA", solver_rtol=6, solver_atol=12),
+            "solver_rtol": lambda m: pm.set_estimation_step(m, "FOCE", idx=0, solver="LSODA", solver_rtol=9),
+            "est_options": lambda m: pm.set_estimation_step(m, "IMP", idx=0, isample=300, niter=5, auto=True, keep_every_nth_iter=2,
+                                                            tool_options={"SEED": 123}),
+            "sim_step": lambda m: pm.set_simulation(m, n=3, seed=77)}
 
 
 REFUSALS = (ValueError, NotImplementedError)
